@@ -26,6 +26,8 @@ package light
 //@   ensures result != nil && len(result.Available) == 0
 //@   ensures len(result.Remaining) == (sampleCount > squareSize*squareSize ? squareSize*squareSize : sampleCount)
 
+// The coordinates a block owes are drawn once, when no result is stored for it yet (NewSamplingResult);
+// a stored result is never topped up or redrawn - what is re-requested is what was stored as pending.
 // The availability check: every still-pending coordinate is requested; a coordinate moves to
 // "available" only with a non-empty (hence verified) sample, stays pending otherwise; the updated
 // result is stored before the verdict; success only if nothing stayed pending.
@@ -33,6 +35,9 @@ package light
 //@   property C03
 //@   noframe
 //@   requires !$Stored && !$Deleted && header != nil && header.DAH != nil
+//@   only selectRandomSamples:
+//@   only NewSamplingResult: NewSamplingResult
+//@   callpre NewSamplingResult: $arg0 == len(dah.RowRoots) && $arg1 == int(la.params.SampleAmount) && is(err, datastore.ErrNotFound)
 //@   checks err == nil && samples != nil ==> len(samples.Remaining) == 0
 //@   checks err == nil && len(smpls) > 0 ==> $Stored && len(failedSamples) == 0 && len(smpls) == len(idxs)
 //@   loop 1: invariant -1 <= rangeindex && rangeindex < len(samples.Remaining) && len(idxs) == len(samples.Remaining)
